@@ -57,12 +57,22 @@ def lifecycle(case):
     root = tempfile.mkdtemp(prefix='verif_c11_')
     d = Path(root) / 'cache'
     desc = f'{case}'
+    spelled = str(d)
+    if case.get('spelled') == 'envvar':
+        os.environ['VERIF_C11_ROOT'] = root
+        spelled = '$VERIF_C11_ROOT/cache'
+    elif case.get('spelled') == 'path':
+        spelled = d
     calls = {}
     counter = itertools.count(1)
+
+    none_pos = case.get('none_pos')
 
     def counting(x):
         c = next(counter)
         calls.setdefault(x, []).append(c)
+        if x == none_pos:
+            return None  # None is a legitimate example; recomputation shows in the call counter
         return (x, c)
 
     keys = ['k%d' % i for i in range(n)]
@@ -83,6 +93,11 @@ def lifecycle(case):
             return src.map(counting)
 
         def observe(p, v, path):
+            if p == none_pos:
+                if v is not None:
+                    raise Violation(f'not-a-pipeline-value|{path}', f'{desc}\nposition {p} via {path}: {v!r}')
+                stored.setdefault(p, None)
+                return
             if not (isinstance(v, tuple) and len(v) == 2 and v[0] == p and v[1] in calls.get(p, [])):
                 raise Violation(f'not-a-pipeline-value|{path}', f'{desc}\nposition {p} via {path}: {v!r}')
             if p in stored:
@@ -101,7 +116,7 @@ def lifecycle(case):
                 _, reuse, clear = step
                 nonempty = d.is_dir() and any(d.iterdir())
                 try:
-                    ds = upstream().diskcache(str(d), reuse=reuse, clear=clear)
+                    ds = upstream().diskcache(spelled, reuse=reuse, clear=clear)
                 except RuntimeError as e:
                     if nonempty and not reuse:
                         events.add('refused')
@@ -229,8 +244,14 @@ def st_lifecycle(draw):
             steps.append(['release', draw(st.integers(0, 3))])
         if draw(st.booleans()):
             steps += [['release', 0]] * 4  # make sure the session is closed before the next open
-    return {'mode': 'lifecycle', 'n': n, 'container': draw(st.sampled_from(['list', 'dict'])),
+    case = {'mode': 'lifecycle', 'n': n, 'container': draw(st.sampled_from(['list', 'dict'])),
             'foreign': draw(st.integers(0, 5)) == 0, 'steps': steps}
+    if draw(st.integers(0, 3)) == 0:
+        case['none_pos'] = draw(st.integers(0, n - 1))
+    sp = draw(st.sampled_from(['str', 'str', 'path', 'envvar']))
+    if sp != 'str':
+        case['spelled'] = sp
+    return case
 
 
 # ---------------------------------------------------------------------------------------------------------------------
